@@ -1703,6 +1703,11 @@ class FlowIR(object):
                 stage_idx, producer, filename, method = FlowIR.ParseDataReferenceFull(
                     ref, c_id[0],application_dependencies=application_dependencies, special_folders=top_level_folders)
 
+                if stage_idx is None and os.path.sep not in producer and (c_id[0], producer) in replicate_instructions:
+                    # VV: Named like a top-level folder (an instance has folders that its package has not: output,
+                    #     stages, ...) but there is a component of this stage with that name: it means the component
+                    stage_idx = c_id[0]
+
                 if stage_idx is None:
                     # VV: This is not a reference to a component
                     continue
@@ -1850,6 +1855,11 @@ class FlowIR(object):
                 stage_index, producer, filename, method = cls.ParseDataReferenceFull(
                     ref, owner_stage, application_dependencies=application_dependencies,
                     special_folders=top_level_folders)
+
+                if stage_index is None and os.path.sep not in producer and (
+                        g.has_node('stage%d.%s' % (owner_stage, producer)) or (owner_stage, producer) in placeholders):
+                    # VV: Named like a top-level folder, but a component of this stage has that name (see replicate())
+                    stage_index = owner_stage
 
                 if stage_index is None:
                     # VV: This is not a reference to a component
